@@ -6,11 +6,13 @@
    maximal behaviour ends with every Wait returned.  The as-found design (a command registered before
    it is initialised) must FAIL this check (vacuity guard), and the design in which a submitter's
    closeWithError completes a streaming command while the reader is handing it data must exhibit
-   NoSendOnClosedChannel (the known finding) - both are checked on every run.
+   NoSendOnClosedChannel (the known finding) - both are checked on every run; so is the variant in which a
+   literal-bearing submitter keeps encMutex after its literal was refused (must violate GoodEnd).
 2. ClientConcGen prints every maximal behaviour as a schedule; the harness re-enacts each on a real
    client with the hooks as gates (built with -race): hook order per command (initialised before
    visible), every Wait returns exactly once, nobody blocks, no panic, no race report.
-3. Stress: free-running goroutines (plain / streaming commands, Caps/State/Mailbox), connection loss and
+3. Stress: free-running goroutines (plain / streaming / literal-bearing commands - APPEND and a SEARCH with an
+   8-bit string, the server accepting or refusing the literal -, Caps/State/Mailbox), connection loss and
    Close at random moments, -race; the hook log is validated by ClientConcTrace; race-detector reports
    with imapclient frames are violations.
 """
@@ -45,7 +47,10 @@ def run(ctx):
     r = ctx.tlc_ok("ClientConc", "ClientConc_mc.cfg", timeout=600)
     if not quick:
         ctx.tlc_ok("ClientConc", "ClientConc_mc3.cfg", timeout=900)
-    for cfg, inv in (("ClientConc_asfound.cfg", None), ("ClientConc_stream.cfg", "NoSendOnClosedChannel")):
+    # literal-bearing submitters keep encMutex while they wait for the continuation request
+    ctx.tlc_ok("ClientConc", "ClientConc_lit.cfg", timeout=600)
+    for cfg, inv in (("ClientConc_asfound.cfg", None), ("ClientConc_stream.cfg", "NoSendOnClosedChannel"),
+                     ("ClientConc_litleak.cfg", "GoodEnd")):
         bad = ctx.tlc("ClientConc", cfg, timeout=600, count=False)
         txt = open(bad.out_path, errors="replace").read()
         if bad.status != "violation" or (inv and ("Invariant %s is violated" % inv) not in txt):
